@@ -453,6 +453,14 @@ class Engine:
             except ViolationFound as v:
                 res = ('violation', {'kind': v.kind, 'detail': v.detail, 'signature': v.signature,
                                      'model': self.model_dict(), 'decisions': list(self.taken)})
+            except (HarnessError, Inconclusive):
+                raise
+            except Exception as ex:
+                # the code under test raised on an input the harness considers valid: reported (after concrete replay) like any other oracle failure
+                tb = traceback.extract_tb(ex.__traceback__)
+                where = next((f'{os.path.basename(f.filename)}:{f.lineno} {f.name}' for f in reversed(tb) if '/verif/' not in f.filename), '?')
+                res = ('violation', {'kind': 'exception', 'detail': f'{type(ex).__name__}: {ex} (raised at {where})',
+                                     'signature': {'kind': 'exception', 'type': type(ex).__name__}, 'model': self.model_dict(), 'decisions': list(self.taken)})
             if res[0] in ('ok', 'ended') and len(self.samples) < 3:
                 try: self.samples.append({'decisions': list(self.taken), 'model': self.model_dict(), 'info': dict(self.path_info)})
                 except Exception: pass
@@ -554,3 +562,9 @@ class ConcreteEngine:
         except PathEnd: return ('ended', None)
         except ViolationFound as v:
             return ('violation', {'kind': v.kind, 'detail': v.detail, 'signature': v.signature})
+        except (HarnessError, Inconclusive):
+            raise
+        except Exception as ex:
+            tb = traceback.extract_tb(ex.__traceback__)
+            where = next((f'{os.path.basename(f.filename)}:{f.lineno} {f.name}' for f in reversed(tb) if '/verif/' not in f.filename), '?')
+            return ('violation', {'kind': 'exception', 'detail': f'{type(ex).__name__}: {ex} (raised at {where})', 'signature': {'kind': 'exception', 'type': type(ex).__name__}})
